@@ -813,14 +813,24 @@ Proof.
   contradiction.
 Qed.
 
-(* key_ops given as a JSON string is matched by substring *)
-Lemma key_ops_string_gap :
-  exists k, k_ops k = Some (PStr (asc "unwrapKey")) /\ check_key_op "wrapKey" k = Ok tt.
-Proof.
-  exists {| k_kty := KOct; k_crv := ""; k_bits := 128; k_priv := true;
-            k_use := None; k_ops := Some (PStr (asc "unwrapKey")); k_alg := None |}.
-  split; [reflexivity | vm_compute; reflexivity].
-Qed.
+(* key_ops given as a JSON string would be matched by substring ("wrapKey" in "unwrapKey");
+   since /repo 7fefb53 such a key cannot be imported: the registry validates "use" as a
+   single member of [sig; enc] and "key_ops" as a list of operation names, which is what
+   key_wf assumes (use_wf / ops_wf) *)
+Definition kparam_kind (name : string) : option vkind :=
+  option_map kp_kind (find (fun r => String.eqb (kp_name r) name) jwk_parameter_registry).
+
+Lemma key_params_table :
+  kparam_kind "use" = Some (VChoiceStr ["sig"; "enc"]) /\
+  kparam_kind "key_ops" =
+    Some (VChoiceList ["sign"; "verify"; "encrypt"; "decrypt"; "wrapKey"; "unwrapKey";
+                       "deriveKey"; "deriveBits"]).
+Proof. vm_compute. split; reflexivity. Qed.
+
+(* for a well-formed key the key_ops gate is list membership, never substring search *)
+Lemma key_ops_membership op k :
+  key_wf k -> check_key_op op k = Ok tt -> ops_include op k.
+Proof. intros (_ & Wo & _) H. exact (proj1 (check_key_op_ok op k Wo H)). Qed.
 
 (* ---------- completeness: a suitable key is accepted ---------- *)
 Lemma prim_std_fits p n : fits p n = true -> prim_std p n = Ok tt.
